@@ -229,6 +229,16 @@ func tbsHelperForms(f *testsmellgen.File, m *testsmellgen.Method) string {
 	return strings.Join(ks, ",")
 }
 
+// tbsLookalikeNote names the annotation of a non-test method whose name merely ends in Test / Ignore.
+func tbsLookalikeNote(m *testsmellgen.Method) string {
+	for _, a := range m.Annos {
+		if a.Name != "Test" && a.Name != "Ignore" && (strings.HasSuffix(a.Name, "Test") || strings.HasSuffix(a.Name, "Ignore")) {
+			return "(method-annotated-@" + a.Name + ")"
+		}
+	}
+	return ""
+}
+
 func tbsCap(n int) string {
 	if n >= 7 {
 		return "7+"
@@ -243,7 +253,7 @@ func tbsExtraSig(typ string, f *testsmellgen.File, m *testsmellgen.Method, alrea
 		return lt + "-extra/line-is-no-planted-method-declaration"
 	}
 	if !m.IsTestMethod() {
-		return "finding-for-method-without-test-or-ignore/" + typ
+		return "finding-for-method-without-test-or-ignore/" + typ + tbsLookalikeNote(m)
 	}
 	if alreadyExpected {
 		return lt + "-extra/reported-more-often-than-evidenced"
@@ -478,7 +488,7 @@ func TbsCheck(t *testsmellgen.Tree, observed []TbsFinding, relOf func(fileName s
 				case len(want[l]) > 0:
 					add(lt+"-extra/planted-call-reported-more-than-once", "%s line %d: %d %s reported, %d planted", f.RelPath, l, got[l], typ, len(want[l]))
 				case m != nil && !m.IsTestMethod():
-					add("finding-for-method-without-test-or-ignore/"+typ, "%s line %d: %s reported inside %s, which carries neither @Test nor @Ignore", f.RelPath, l, typ, m.Name)
+					add("finding-for-method-without-test-or-ignore/"+typ+tbsLookalikeNote(m), "%s line %d: %s reported inside %s, which carries neither @Test nor @Ignore", f.RelPath, l, typ, m.Name)
 				default:
 					add(lt+"-extra/at-line-of:"+strings.Join(desc, ","), "%s line %d: %s reported where the planted calls are %v", f.RelPath, l, typ, desc)
 				}
@@ -533,7 +543,17 @@ func TbsCheck(t *testsmellgen.Tree, observed []TbsFinding, relOf func(fileName s
 						add("ignoretest-missing/among-methods-annotated:"+strings.Join(cs, "+"), "%s: %d IgnoreTest expected, %d reported", f.RelPath, len(want), len(got))
 					}
 				} else {
-					add("ignoretest-extra/more-than-methods-with-ignore", "%s: %d IgnoreTest expected, %d reported", f.RelPath, len(want), len(got))
+					note := ""
+					for _, m := range f.Methods {
+						if !m.IsTestMethod() {
+							for _, a := range m.Annos {
+								if strings.HasSuffix(a.Name, "Ignore") && note == "" {
+									note = "(file-has-method-annotated-@" + a.Name + ")"
+								}
+							}
+						}
+					}
+					add("ignoretest-extra/more-than-methods-with-ignore"+note, "%s: %d IgnoreTest expected, %d reported", f.RelPath, len(want), len(got))
 				}
 				continue
 			}
